@@ -21,6 +21,7 @@ Abstract values are made concrete here: ["N",k] -> k or float(k), ["S",cs] ->
 a string through a character table (the abstract "." becomes one of a list
 of punctuation characters), ["B",b] -> bool, ["E",c] -> c, ["Z"] -> empty.
 """
+import gc
 import json
 import multiprocessing
 import os
@@ -177,9 +178,11 @@ def lib_vector(vec, look, lib, conc, out):
         for ti, t in enumerate(TYPES):
             allowed = vec['m'][i][ti]
             out.free += FREE in allowed
-            for orient, arr in (('col', col), ('row', row)):
+            # one orientation per case, both over the run
+            for orient, arr in ((('col', col),) if (i + ti + n) % 2 else
+                                (('row', row),)):
                 if n == 0:
-                    if lv[0] == 'E' or orient == 'row':
+                    if lv[0] == 'E':
                         continue      # an empty range cannot reach match()
                     got = call(lib['_match'], v_c, [], t)
                 else:
@@ -498,6 +501,7 @@ def execute(v, vectors, looks, seed, fprob, totals):
     _STATE.update(vectors=vectors, looks=looks, seed=seed, fprob=fprob)
     _STATE.pop('lib', None)
     nproc = max(1, min(16, os.cpu_count() or 1))
+    gc.freeze()        # keep the collector of the forked workers off the vectors
     step = max(1, min(400, len(vectors) // (nproc * 4) + 1))
     spans = [(i, min(i + step, len(vectors))) for i in range(0, len(vectors), step)]
     ctx = multiprocessing.get_context('fork')
@@ -620,8 +624,8 @@ def dedup(vectors):
 
 
 # ------------------------------------------------------------------ run ---
-QUICK_FPROB = {'*': 0.004, ('vec', 1): 0.5, ('vec', 2): 0.06, ('vec', 3): 0.01,
-               ('tbl', 1): 0.6, ('tbl', 2): 0.1, ('tbl', 3): 0.03, ('tbl', 4): 0.015}
+QUICK_FPROB = {'*': 0.004, ('vec', 1): 0.3, ('vec', 2): 0.05, ('vec', 3): 0.008,
+               ('tbl', 1): 0.5, ('tbl', 2): 0.08, ('tbl', 3): 0.02, ('tbl', 4): 0.008}
 THOROUGH_FPROB = {'*': 0.02, ('vec', 1): 1.0, ('vec', 2): 0.5, ('vec', 3): 0.1,
                   ('tbl', 1): 1.0, ('tbl', 2): 0.5, ('tbl', 3): 0.2,
                   ('tbl', 4): 0.06, ('tbl', 5): 0.03, ('tbl', 6): 0.02}
